@@ -14,15 +14,20 @@ import (
 	"flag"
 	"fmt"
 	"io"
+	"net/http"
+	"net/http/httptest"
 	"os"
 	"path/filepath"
 	"regexp"
 	"sort"
 	"strconv"
 	"strings"
+	"sync"
 	"time"
 
 	"k8s.io/klog"
+
+	gatewayclientset "github.com/kubewharf/kubegateway/pkg/client/kubernetes"
 
 	proxyv1alpha1 "github.com/kubewharf/kubegateway/pkg/apis/proxy/v1alpha1"
 	"github.com/kubewharf/kubegateway/pkg/flowcontrols"
@@ -67,6 +72,11 @@ type Op struct {
 	OK    bool  `json:"ok,omitempty"`
 	Now   int64 `json:"now,omitempty"`
 	Other bool  `json:"other,omitempty"`
+	// sync: server info fetched (or not: fail) at time now; n shards; leader k (0: none published) for the cluster's
+	// shard, otherLeader for another shard (noise)
+	Fail        bool `json:"fail,omitempty"`
+	Leader      int  `json:"leader,omitempty"`
+	OtherLeader int  `json:"otherLeader,omitempty"`
 	// answer
 	Named bool  `json:"named,omitempty"`
 	Item  *Item `json:"item,omitempty"`
@@ -93,6 +103,8 @@ func (o Op) MarshalJSON() ([]byte, error) {
 		m["n"] = o.N
 	case "hb":
 		m["ok"], m["now"], m["other"] = o.OK, o.Now, o.Other
+	case "sync":
+		m["fail"], m["n"], m["leader"], m["otherLeader"], m["now"] = o.Fail, o.N, o.Leader, o.OtherLeader, o.Now
 	case "answer":
 		m["named"], m["item"] = o.Named, o.Item
 	case "meter":
@@ -143,6 +155,7 @@ type Obs struct {
 	Ready         bool   `json:"ready"`
 	Ret           bool   `json:"ret"`
 	RemoteConfig  *Item  `json:"remoteConfig"`
+	Leader        int    `json:"leader"`
 }
 
 // implementation-only readings
@@ -283,6 +296,54 @@ func normalize(cs Case) Case {
 	return cs
 }
 
+// The scripted limiter service: what GET /apis/proxy.kubegateway.io/v1alpha1/ratelimit/endpoints answers to the real
+// clientSets.sync().
+var (
+	infoMu   sync.Mutex
+	infoFail bool
+	infoBody proxyv1alpha1.RateLimitServerInfo
+	infoSrv  *httptest.Server
+)
+
+func startInfoServer() {
+	infoSrv = httptest.NewServer(http.HandlerFunc(func(w http.ResponseWriter, r *http.Request) {
+		infoMu.Lock()
+		defer infoMu.Unlock()
+		if r.URL.Path != clientsets.ServerInfoUrl || infoFail {
+			http.Error(w, "unavailable", http.StatusServiceUnavailable)
+			return
+		}
+		w.Header().Set("Content-Type", "application/json")
+		json.NewEncoder(w).Encode(infoBody)
+	}))
+}
+
+func leaderURL(k int) string { return fmt.Sprintf("http://leader-%d.verif.invalid", k) }
+
+func leaderIndex(u string) int {
+	var k int
+	if _, err := fmt.Sscanf(u, "http://leader-%d.verif.invalid", &k); err != nil {
+		if u == "" {
+			return 0
+		}
+		return -1
+	}
+	return k
+}
+
+// gatedClientSets is what the upstreamLimiter gets: readiness, shard and id come from the real clientSets, but no
+// client is ever handed out — the global counter's background worker would otherwise send real acquire requests to
+// the published leader as soon as sync() has stored one, and feed their errors into SetLimit behind the harness.
+type gatedClientSets struct{ real clientsets.ClientSets }
+
+func (g gatedClientSets) GetAllClients() []gatewayclientset.Interface { return nil }
+func (g gatedClientSets) ClientFor(cluster string) (gatewayclientset.Interface, error) {
+	return nil, fmt.Errorf("verif: no client")
+}
+func (g gatedClientSets) ShardIDFor(cluster string) (int, error) { return g.real.ShardIDFor(cluster) }
+func (g gatedClientSets) IsReady(cluster string) bool           { return g.real.IsReady(cluster) }
+func (g gatedClientSets) ClientID() string                      { return g.real.ClientID() }
+
 // wrapperProbeBudget bounds, per process, the probes that go through the max-in-flight count wrapper's waiting path
 // (each waiting TryAcquire leaks one goroutine inside waitAcquire, in the real code too).
 var wrapperProbeBudget = 40000
@@ -290,10 +351,10 @@ var wrapperProbeBudget = 40000
 func runImpl(c *rig.Ctx, cs Case, rnd func(int) int) (res runResult) {
 	ctx, cancel := context.WithCancel(context.Background())
 	defer cancel()
-	bare := clientsets.VerifNewBare("gw-verif-1")
+	bare := clientsets.VerifNewBare("gw-verif-1", infoSrv.URL)
 	var csArg clientsets.ClientSets
 	if cs.Cfg.HasCS {
-		csArg = bare
+		csArg = gatedClientSets{bare}
 	}
 	shard := limitutil.GetShardID(cluster, cs.Shards)
 	var ul flowcontrols.UpstreamLimiter
@@ -301,8 +362,17 @@ func runImpl(c *rig.Ctx, cs Case, rnd func(int) int) (res runResult) {
 	frozen := false
 	pendingMax, pendingRate := int32(0), float64(0)
 	lastRet := false
-	var lastHB int64
-	hbSeen := false
+	// the shifted clock shared by heartbeats and server-info syncs
+	var clock int64
+	clockSet := false
+	advance := func(now int64) {
+		if clockSet && now > clock {
+			clientsets.VerifAdvance(bare, time.Duration(now-clock))
+		}
+		if !clockSet || now > clock {
+			clock, clockSet = now, true
+		}
+	}
 
 	msg, panicked := rig.Recover(func() {
 		ul = flowcontrols.NewUpstreamLimiter(ctx, cluster, cs.Cfg.RateLimiter, csArg)
@@ -322,15 +392,24 @@ func runImpl(c *rig.Ctx, cs Case, rnd func(int) int) (res runResult) {
 				clientsets.VerifSetShardCount(bare, op.N)
 			case "hb":
 				if op.Other {
-					clientsets.VerifHeartbeat(bare, shard+1, op.OK, 0)
+					clientsets.VerifHeartbeat(bare, shard+1, op.OK)
 				} else {
-					el := time.Duration(0)
-					if hbSeen {
-						el = time.Duration(op.Now - lastHB)
-					}
-					hbSeen, lastHB = true, op.Now
-					clientsets.VerifHeartbeat(bare, shard, op.OK, el)
+					advance(op.Now)
+					clientsets.VerifHeartbeat(bare, shard, op.OK)
 				}
+			case "sync":
+				advance(op.Now)
+				infoMu.Lock()
+				infoFail = op.Fail
+				infoBody = proxyv1alpha1.RateLimitServerInfo{Server: "verif", ShardCount: int32(op.N)}
+				if op.Leader > 0 {
+					infoBody.Endpoints = append(infoBody.Endpoints, proxyv1alpha1.EndpointInfo{Leader: leaderURL(op.Leader), ShardID: int32(shard)})
+				}
+				if op.OtherLeader > 0 {
+					infoBody.Endpoints = append(infoBody.Endpoints, proxyv1alpha1.EndpointInfo{Leader: leaderURL(op.OtherLeader), ShardID: int32(shard + 1)})
+				}
+				infoMu.Unlock()
+				clientsets.VerifSync(bare)
 			case "reconcile":
 				remote.VerifUpdateGlobalCount(cluster, ul.AllFlowControls())
 			case "answer":
@@ -354,6 +433,7 @@ func runImpl(c *rig.Ctx, cs Case, rnd func(int) int) (res runResult) {
 				panic("harness: unknown op " + op.Op)
 			}
 			o, x := observe(cs, ul, cache, bare, lastRet, rnd)
+			o.Leader = leaderIndex(clientsets.VerifLeader(bare, shard))
 			res.Obs = append(res.Obs, o)
 			res.Extra = append(res.Extra, x)
 		}
@@ -672,6 +752,7 @@ func silenceKlog() {
 
 func main() {
 	silenceKlog()
+	startInfoServer()
 	for _, e := range []string{"GLOBAL_MAXINFLIGHT_BURST_PERCENT", "GLOBAL_TOKENBUCKET_BURST_PERCENT"} {
 		if os.Getenv(e) != "" {
 			fmt.Fprintln(os.Stderr, "c09: "+e+" is set: the burst percents would differ from the source values the theorems are checked against")
@@ -783,6 +864,15 @@ func account(c *rig.Ctx, cs Case, res runResult) {
 			}
 		case "hb":
 			k += fmt.Sprintf(":ok=%v", op.OK)
+		case "sync":
+			switch {
+			case op.Fail:
+				k += ":fail"
+			case op.Leader == 0:
+				k += ":no-endpoint"
+			default:
+				k += ":leader"
+			}
 		}
 		c.Count(k)
 	}
